@@ -538,6 +538,30 @@ func (o *OracleC12) AfterBlock(c *Chain, b *BlockCtx) []*Violation {
 				break
 			}
 		}
+		// ---- no reporting stake counts twice: the reporting weight cast by a reporter and its selectors together
+		// never exceeds the stake recorded for that reporter as of the dispute's block
+		byRep := map[string]*big.Int{}
+		for _, vr := range byDispute[id] {
+			sel, err := b.Ref.App.ReporterKeeper.Selectors.Get(v.ctx, vr.Voter)
+			if err != nil {
+				continue
+			}
+			k := string(sel.Reporter)
+			if byRep[k] == nil {
+				byRep[k] = new(big.Int)
+			}
+			byRep[k].Add(byRep[k], vr.Rec.ReporterPower.BigInt())
+		}
+		for rep, cast := range byRep {
+			tot, err := b.Ref.App.ReporterKeeper.GetReporterTokensAtBlock(v.ctx, []byte(rep), d.D.BlockNumber)
+			if err != nil || tot.IsNil() {
+				continue
+			}
+			o.count("reporter_groups_checked")
+			if cast.Cmp(tot.BigInt()) > 0 && !o.switchedSelector(v, byDispute[id], rep) {
+				out = append(out, o.v(b.H, "counters", "Voter.ReporterPower", "reporting-stake-counted-twice", "dispute %d: reporter %s and its selectors voted with %s of reporting weight, the stake recorded for that reporter at the dispute block is %s", id, sdk.AccAddress([]byte(rep)), cast, tot))
+			}
+		}
 		// ---- tally: when a result is recorded in this block, recompute it from the statement
 		p, had := o.t.prev[id]
 		if d.V == nil || d.V.VoteResult == disputetypes.VoteResult_NO_TALLY || (had && p.V != nil && p.V.VoteResult != disputetypes.VoteResult_NO_TALLY) {
@@ -639,7 +663,14 @@ func (o *OracleC12) checkTally(c *Chain, b *BlockCtx, v *View, d DisputeInfo, cn
 		return out
 	}
 	if !greyQ && quorum != isQuorumRes {
-		out = append(out, o.v(b.H, "tally", "TallyVote", "quorum-label", "dispute %d: participation sum is %s (quorum at 0.51 => %v) but the result is labelled %s (counters users %v of %s, reporters %v of %s, holders %v of %s, team %v)", d.D.DisputeId, part.FloatString(6), quorum, res, cnt.Users, totalTips, cnt.Reporters, totalRep, cnt.Tokenholders, supply, cnt.Team))
+		cls := "quorum-label"
+		// diagnosis: the address that is the team NOW voted on this dispute as an ordinary account before it became the team
+		if cnt.Team.Support+cnt.Team.Against+cnt.Team.Invalid == 0 {
+			if has, err := b.Ref.App.DisputeKeeper.Voter.Has(v.ctx, collections.Join(d.D.DisputeId, []byte(v.TeamAddr()))); err == nil && has {
+				cls += ":team-address-changed-after-its-vote"
+			}
+		}
+		out = append(out, o.v(b.H, "tally", "TallyVote", cls, "dispute %d: participation sum is %s (quorum at 0.51 => %v) but the result is labelled %s (counters users %v of %s, reporters %v of %s, holders %v of %s, team %v)", d.D.DisputeId, part.FloatString(6), quorum, res, cnt.Users, totalTips, cnt.Reporters, totalRep, cnt.Tokenholders, supply, cnt.Team))
 	}
 	if !isQuorumRes && b.Time.Before(d.V.VoteEnd) && b.Time.Before(o.voteEndBefore(d)) {
 		out = append(out, o.v(b.H, "tally", "TallyVote", "no-quorum-before-period-end", "dispute %d resolved without quorum before its voting period ended", d.D.DisputeId))
@@ -669,7 +700,12 @@ func (o *OracleC12) checkTally(c *Chain, b *BlockCtx, v *View, d DisputeInfo, cn
 	}
 	if !ok {
 		cls := "wrong-majority"
-		if isQuorumRes {
+		if cnt.Team.Support+cnt.Team.Against+cnt.Team.Invalid == 0 {
+			if has, err := b.Ref.App.DisputeKeeper.Voter.Has(v.ctx, collections.Join(d.D.DisputeId, []byte(v.TeamAddr()))); err == nil && has {
+				cls = "wrong-majority:team-address-changed-after-its-vote"
+			}
+		}
+		if isQuorumRes && cls == "wrong-majority" {
 			cls = "wrong-majority-with-quorum"
 			// diagnosis: does the recorded result follow from the fractions of team, users and reporters alone?
 			s3, a3, i3 := new(big.Rat), new(big.Rat), new(big.Rat)
@@ -712,3 +748,14 @@ func (o *OracleC12) End(c *Chain) []*Violation { return nil }
 
 var _ = collections.Join[int, int]
 var _ = math.ZeroInt
+
+// switchedSelector: a voter that switched reporters after voting makes the grouping by current selection unreliable.
+func (o *OracleC12) switchedSelector(v *View, voters []VoterRec, rep string) bool {
+	for _, vr := range voters {
+		sel, err := v.n.App.ReporterKeeper.Selectors.Get(v.ctx, vr.Voter)
+		if err == nil && string(sel.Reporter) == rep && !sel.LockedUntilTime.IsZero() {
+			return true
+		}
+	}
+	return false
+}
